@@ -70,6 +70,7 @@ type simStep struct {
 }
 
 func (c *simCluster) doStep(s simStep) (ev map[string]interface{}) {
+	simHarnessGoID = curGoID()
 	c.evExtra = nil
 	c.acts = []map[string]interface{}{}
 	// RoundFast: the outcome of `round.Duration() > promoteThreshold` in this step
@@ -111,6 +112,8 @@ func (c *simCluster) doStep(s simStep) (ev map[string]interface{}) {
 		ev = c.stepRestart(s.N)
 	case "disconnected":
 		ev = c.stepDisconnected(s.N, s.Peer)
+	case "shutdown":
+		ev = c.stepShutdown(s.N)
 	case "snapGAsk":
 		ev = c.stepSnapG(s.N, "ask")
 	case "snapGStore":
@@ -119,8 +122,21 @@ func (c *simCluster) doStep(s simStep) (ev map[string]interface{}) {
 		ev = c.stepSnapTaken(s.N)
 	case "task":
 		ev = c.stepTask(s)
+	case "fairCheck":
+		ev = c.stepFairCheck(s)
+	case "final":
+		ev = c.stepFinal()
 	default:
 		ev = skipped("unknown step " + s.K)
+	}
+	// a crash point reached in another goroutine of a node (snapshot goroutine): the process is dead
+	if id := c.asyncCrash; id != 0 {
+		c.asyncCrash = 0
+		if n := c.nodes[id]; n != nil && n.up {
+			n.kill()
+			n.downProj = c.projectImage(n, c.crashImage)
+			c.note(map[string]interface{}{"kind": "crashPoint", "n": id, "point": c.crashAt.point})
+		}
 	}
 	c.settle()
 	if c.eager.Fsm {
@@ -427,10 +443,21 @@ func (c *simCluster) stepCrash(s simStep) map[string]interface{} {
 		// arm a crash point: the crash happens inside a later handler
 		c.crashAt = &crashSpec{node: s.N, point: s.At.Point, hit: s.At.Hit}
 		c.crashFired = false
+		c.armSeq = c.seq
 		return map[string]interface{}{"kind": "crashArmed", "n": s.N, "point": s.At.Point, "hit": s.At.Hit}
 	}
 	n.kill()
 	return map[string]interface{}{"kind": "crash", "n": s.N}
+}
+
+// Raft.Shutdown: doClose(ErrServerClosed); stateLoop sees r.close and returns
+func (c *simCluster) stepShutdown(id uint64) map[string]interface{} {
+	n := c.nodes[id]
+	if n == nil || !n.up {
+		return skipped("node down")
+	}
+	n.event(func() { n.r.doClose(ErrServerClosed) })
+	return map[string]interface{}{"kind": "shutdown", "n": id}
 }
 
 func (c *simCluster) stepRestart(id uint64) map[string]interface{} {
@@ -529,7 +556,7 @@ func (c *simCluster) stepTask(s simStep) map[string]interface{} {
 func (n *simNode) waitGate(point string) bool {
 	deadline := time.Now().Add(simWait)
 	for n.gate.parkedAt() != point {
-		if len(n.r.snapTakenCh) > 0 {
+		if len(n.r.snapTakenCh) > 0 || n.c.asyncCrash == n.id {
 			return false
 		}
 		if at := n.gate.parkedAt(); at == "snapG.ask" && point != "snapG.ask" {
@@ -588,6 +615,10 @@ func (c *simCluster) stepSnapG(id uint64, what string) map[string]interface{} {
 		n.gate.open()
 		deadline := time.Now().Add(simWait)
 		for len(n.r.snapTakenCh) == 0 {
+			if c.asyncCrash == id {
+				// a crash point inside the snapshot goroutine fired: the process is dead (doStep buries the node)
+				return map[string]interface{}{"kind": "snapGStore", "n": id, "crashed": true}
+			}
 			if time.Now().After(deadline) {
 				panic(harnessStuck("snapshot goroutine did not finish"))
 			}
